@@ -69,10 +69,20 @@ func waitBack(i int) {
 // All scheduler state shared between goroutines is touched only inside
 // go:norace functions or through the assembly stubs.
 
+// a bounded record of where a statement was reached during the counting pass
+const pointSample = 48
+
+type pointAt struct{ ord, step int }
+
+type pointOcc struct {
+	n  int
+	at []pointAt
+}
+
 type raceG struct {
 	id      int
-	ids     []int32 // first pass only: the statement id of every point reached, in order
-	stepOf  []int32 // first pass only: the step each of those points belongs to
+	occ     []pointOcc // first pass only: per statement id, how often it was reached and a bounded sample of where
+	rs      uint64     // reservoir-sampling state
 	record  bool
 	yieldTo []int // per yield: run the owner of that step ahead up to and including it (0 = just the next foreign step)
 	pointN  int
@@ -114,8 +124,22 @@ func racePointHook(id int) {
 	n := g.pointN
 	g.pointN++
 	if g.record {
-		g.ids = append(g.ids, int32(id))
-		g.stepOf = append(g.stepOf, int32(g.curStep))
+		if id >= len(g.occ) {
+			g.occ = append(g.occ, make([]pointOcc, id+1-len(g.occ))...)
+		}
+		o := &g.occ[id]
+		o.n++
+		if len(o.at) < pointSample {
+			o.at = append(o.at, pointAt{ord: n, step: g.curStep})
+		} else {
+			// reservoir: every occurrence is kept with probability pointSample/o.n
+			g.rs ^= g.rs << 13
+			g.rs ^= g.rs >> 7
+			g.rs ^= g.rs << 17
+			if j := int(g.rs % uint64(o.n)); j < pointSample {
+				o.at[j] = pointAt{ord: n, step: g.curStep}
+			}
+		}
 	}
 	if g.yi >= len(g.yields) || g.yields[g.yi] != n {
 		return
@@ -263,7 +287,7 @@ func (e *Exec) runRace() *Violation {
 	store32(&raceStall, 0)
 	gstate := make([]*raceG, gs+1)
 	for g := 1; g <= gs; g++ {
-		gstate[g] = &raceG{id: g, record: e.recordPoints}
+		gstate[g] = &raceG{id: g, record: e.recordPoints, rs: 0x9E3779B97F4A7C15 ^ uint64(g)*0xD6E8FEB86659FD93}
 		type yt struct{ nth, to int }
 		var ys []yt
 		for _, p := range e.tr.Points {
@@ -345,8 +369,7 @@ func (e *Exec) runRace() *Violation {
 	wg.Wait()
 	for g := 1; g <= gs; g++ {
 		e.racePoints = append(e.racePoints, gstate[g].pointN)
-		e.racePointIDs = append(e.racePointIDs, gstate[g].ids)
-		e.racePointSteps = append(e.racePointSteps, gstate[g].stepOf)
+		e.racePointOcc = append(e.racePointOcc, gstate[g].occ)
 		if gstate[g].fired > 0 {
 			e.st.Events["point_yield"] += gstate[g].fired
 		}
